@@ -49,12 +49,16 @@ type call struct {
 	Fail bool
 }
 
-// dest accepts k bytes in total and then fails.
+// dest accepts k bytes in total and then fails.  Modes: exact (accepts up to byte k), atomic (the
+// block or nothing), short (part of what fits, io.ErrShortWrite), eager (the call that consumes the
+// k-th byte reports the failure, with its full count when it ends exactly at k), once / eonce (exact /
+// eager, but only one call fails; afterwards the destination works again).
 type dest struct {
 	k, acc int
 	mode   string
 	calls  int
 	failed bool
+	healed bool
 	log    *[]call
 }
 
@@ -64,10 +68,20 @@ func (d *dest) Write(p []byte) (int, error) {
 	m := len(p)
 	a, fail := m, false
 	var err error
-	if m > room {
+	eager := d.mode == "eager" || d.mode == "eonce"
+	switch {
+	case d.healed:
+	case eager:
+		if m > 0 && m >= room {
+			fail, err = true, errFault
+			if room < m {
+				a = room
+			}
+		}
+	case m > room:
 		fail = true
 		switch d.mode {
-		case "exact":
+		case "exact", "once":
 			a, err = room, errFault
 		case "atomic":
 			a, err = 0, errFault
@@ -78,6 +92,9 @@ func (d *dest) Write(p []byte) (int, error) {
 	d.acc += a
 	if fail {
 		d.failed = true
+		if d.mode == "once" || d.mode == "eonce" {
+			d.healed = true
+		}
 	}
 	if d.log != nil {
 		*d.log = append(*d.log, call{m, a, fail})
@@ -295,7 +312,7 @@ func runWrite(f *sfnt.Font, g *Group, k int, detail bool, out *[]ev) {
 	}
 	if !detail {
 		*out = append(*out, ev{"ev": "w", "g": g.ID, "mode": g.Mode, "k": k, "hasn": hasn, "n": int(n), "err": err != nil,
-			"acc": d.acc, "calls": d.calls, "panic": pmsg != "", "msg": pmsg})
+			"acc": d.acc, "calls": d.calls, "dfail": d.failed, "panic": pmsg != "", "msg": pmsg})
 		return
 	}
 	*out = append(*out, ev{"ev": "wb", "g": g.ID, "mode": g.Mode, "k": k})
@@ -385,6 +402,30 @@ func detailed(g *Group, k int) bool {
 
 // faultPoints lists the k of a group: all of 0..total, or windows around every table boundary.
 func faultPoints(g *Group, file []byte) []int {
+	if g.KSel == "calls" {
+		// write groups of big fonts: windows around the boundaries of the destination's Write calls
+		var log []call
+		d := &dest{k: g.Total + 1, mode: "exact", log: &log}
+		if _, _, err := writeOp(makeFont(g.FI, g.Thorough), g.Op, d); err != nil {
+			vio.Fatal(err)
+		}
+		sel := map[int]bool{}
+		pos := 0
+		for _, c := range append([]call{{}}, log...) {
+			pos += c.M
+			for k := pos - 2; k <= pos+2; k++ {
+				if k >= 0 && k <= g.Total {
+					sel[k] = true
+				}
+			}
+		}
+		res := make([]int, 0, len(sel))
+		for k := range sel {
+			res = append(res, k)
+		}
+		sort.Ints(res)
+		return res
+	}
 	if g.KSel != "win" {
 		res := make([]int, g.Total+1)
 		for k := range res {
@@ -446,7 +487,7 @@ var rmodes = []string{"trunc", "strunc", "failat", "sfail"}
 
 func groups(thorough bool) []*Group {
 	var res []*Group
-	wmodes := []string{"exact", "atomic", "short"}
+	wmodes := []string{"exact", "atomic", "short", "eager", "once", "eonce"}
 	addRead := func(fi int, name, variant, ksel string) {
 		for _, m := range rmodes {
 			res = append(res, &Group{ID: len(res) + 1, FI: fi, Thorough: thorough, Name: name, Op: "Read", Mode: m,
@@ -470,7 +511,11 @@ func groups(thorough bool) []*Group {
 				if extraTable(fi, o) {
 					name += "+zzzz"
 				}
-				res = append(res, &Group{ID: len(res) + 1, FI: fi, Thorough: thorough, Name: name, Op: op, Mode: m, KSel: "all"})
+				g := &Group{ID: len(res) + 1, FI: fi, Thorough: thorough, Name: name, Op: op, Mode: m, KSel: "all"}
+				if !isRead(op) && o.N >= 300 && (m == "eager" || m == "once" || m == "eonce") {
+					g.KSel = "calls" // big fonts: the new modes around every call boundary only
+				}
+				res = append(res, g)
 			}
 		}
 		// the same tables with every table in turn physically last, and with an unknown last table
